@@ -19,7 +19,7 @@ contract(MZ + '.__init__', props=['C05', 'C19'],
                   'zone_ok(self)', 'self._end <= 2**address_bits - 1'],
          modifies=['self._address_bits', 'self._start', 'self._end', 'self._name', 'self._current_address'])
 
-contract(MZ + '.current_address.setter', props=['C05'],
+contract(MZ + '.current_address.setter', props=['C05', 'C02'],
          requires=['zone_ok(self)'],
          raises={'ValueError': 'value < self._start or value > self._end + 1'},
          ensures=['self._current_address == value', 'zone_ok(self)'],
